@@ -195,5 +195,5 @@ _SQL_TABLE = {
     'tasks': _SqlInfo('task_ID', 'Task'),
     'algs': _SqlInfo('alg_ID', 'Algorithm'),
     'svs': _SqlInfo('sv_ID', 'StateVector'),
-    'vaks': _SqlInfo('val_ID', 'Value'),
+    'vals': _SqlInfo('val_ID', 'Value'),
 }
